@@ -21,7 +21,8 @@ Inductive perr :=
 | EBracketMismatch
 | EEndExpected                          (* "end of script reached while X expected" *)
 | EEndUnfinished                        (* "end of script reached while the x command is not finished" *)
-| EInvalidUtf8.
+| EInvalidUtf8
+| EMissingParam.                         (* "missing parameter for argument x": ';' while a tag waits for its parameter *)
 
 Inductive cna :=
 | CnaOk (f : frame) (slot : option argdef)   (* True; the slot of args_definition that took the argument *)
